@@ -173,6 +173,7 @@ def ucl_lines():
     add("H3O+", "FREEZE", ["#H2O", "H"], a="1.0")
     add("C+", "FREEZE", ["#C"], a="0.5")
     add("E-", "FREEZE", [], a="1.0")
+    add("C-", "FREEZE", ["#C"], a="0.8")  # an anion: charged like a cation for the accretion law
     for sp, gas in (("#CO", "CO"), ("#H2O", "H2O"), ("#CH4", "CH4"), ("#C", "C")):
         for code in ("DESOH2", "DESCR", "DEUVCR"):
             add(sp, code, [gas], c="1300.0")
